@@ -279,6 +279,7 @@ func ConvertString(value string, lst *sdcpb.SchemaLeafType) (*sdcpb.TypedValue, 
 		re, err := regexp.Compile(sp.Pattern)
 		if err != nil {
 			log.Errorf("unable to compile regex %q", sp.Pattern)
+			return nil, fmt.Errorf("unable to compile regex %q: %w", sp.Pattern, err)
 		}
 		match := re.MatchString(value)
 		// if it is a match and not inverted
